@@ -159,12 +159,29 @@ class CFGBuilder(AstVisitor[BB | None]):
         Builds the expression and mutates `node.value` to point to the built expression.
         Returns the BB in which the expression is available and adds the node to it.
         """
+        # Index expressions of subscript targets may also contain control-flow (e.g.
+        # `xs[i if c else j] = v`) and need to be built. Python evaluates them after
+        # the value, except for augmented assignments.
+        if isinstance(node, ast.AugAssign):
+            bb = self._build_target_indices([node.target], bb)
         if (
             not isinstance(node, NestedFunctionDef | ModifiedBlock)
             and node.value is not None
         ):
             node.value, bb = ExprBuilder.build(node.value, self.cfg, bb)
+        if isinstance(node, ast.Assign):
+            bb = self._build_target_indices(node.targets, bb)
+        elif isinstance(node, ast.AnnAssign):
+            bb = self._build_target_indices([node.target], bb)
         bb.statements.append(node)
+        return bb
+
+    def _build_target_indices(self, targets: list[ast.expr], bb: BB) -> BB:
+        """Builds the index expressions of all subscripts in assignment targets."""
+        for target in targets:
+            for sub in ast.walk(target):
+                if isinstance(sub, ast.Subscript):
+                    sub.slice, bb = ExprBuilder.build(sub.slice, self.cfg, bb)
         return bb
 
     def visit_Assign(self, node: ast.Assign, bb: BB, jumps: Jumps) -> BB | None:
